@@ -54,10 +54,12 @@ pub fn run_pass(device: &mut Device) -> anyhow::Result<()> {
                     }
                 }
 
+                // Two variants collide when they get the same value while being active under the same cfg
                 let duplicates = seen_values
                     .iter()
-                    .duplicates()
-                    .map(|(num, name)| format!("{name}: {num}"))
+                    .zip(ec.variants.iter())
+                    .duplicates_by(|((num, _), variant)| (*num, variant.cfg_attr.clone()))
+                    .map(|((num, name), _)| format!("{name}: {num}"))
                     .collect::<Vec<_>>();
 
                 ensure!(
